@@ -108,6 +108,16 @@ pub fn vi_try(a: &Args) -> Args {
         },
         Err(_) => vec![0],
     };
+    // the infallible conversions from the narrower integer types and the way back agree with the fallible ones
+    if let Ok(x8) = u8::try_from(x) {
+        assert_eq!(u128::from(u32::from(VarInt::from(x8))), x, "From<u8> for VarInt");
+    }
+    if let Ok(x16) = u16::try_from(x) {
+        assert_eq!(u128::from(u32::from(VarInt::from(x16))), x, "From<u16> for VarInt");
+    }
+    if let Some(v) = u32::try_from(x).ok().and_then(|x32| VarInt::try_from(x32).ok()) {
+        assert_eq!(usize::try_from(v).ok().map(|u| u as u128), Some(x), "TryFrom<VarInt> for usize");
+    }
     vec![r32, rus]
 }
 
